@@ -13,7 +13,7 @@ import os
 from typing import List
 
 _REPO = os.environ.get("VERIF_REPO", "/repo")
-MAXLEN = int(os.environ.get("C19_MAXLEN", "3"))  # bound on the symbolic history length (3 quick, 4 thorough)
+MAXLEN = int(os.environ.get("C19_MAXLEN", "3"))  # bound on the symbolic history length (3 quick, 5 thorough)
 _spec = importlib.util.spec_from_file_location("sc_mod", os.path.join(_REPO, "src/ginjax/ml/stopping_conditions.py"))
 sc_mod = importlib.util.module_from_spec(_spec)
 _spec.loader.exec_module(sc_mod)
